@@ -72,6 +72,11 @@ public:
    * </ul>
    */
   double getFunctionValue() const override;
+
+  /**
+   * @brief Perform the optimization steps, then apply the best of the two interior points.
+   */
+  double optimize() override;
   /** @} */
 
   void doInit(const ParameterList& params) override;
